@@ -176,7 +176,7 @@ def _build(ctx, where, pr, pphi, plam, reuse):
     raise AssertionError(where)
 
 
-def h_live(ctx, where, reuse):
+def h_live(ctx, where, reuse, rewrite=None):
     lw = ctx.lw
     r1, r2 = ctx.real("r1", 0, 1), ctx.real("r2", 0, 1)
     l1, l2 = ctx.real("l1", 0, 1), ctx.real("l2", 0, 1)
@@ -195,6 +195,12 @@ def h_live(ctx, where, reuse):
     live_copy = c.copy()
     ctx.check(frozen.get_all_params() == [], "frozen-copy-lists-no-parameters")
     ctx.check(len(live_copy.get_all_params()) == 3, "plain-copy-keeps-parameters")
+    if rewrite is not None:
+        # an in-place rewrite of the circuit keeps it attached to its parameters
+        getattr(c, rewrite)()
+        after = c.get_all_params()
+        ctx.check(len(after) == 3 and all(any(q is p for q in after) for p in (pr, pphi, plam)), f"after-{rewrite}:get_all_params-lists-the-same-parameter-objects")
+        ctx.check_eq(c.U_full, ref1.U_full, f"after-{rewrite}:U-unchanged")
     which = ctx.choice("which", ["r", "phi", "lam", "all"])
     if which in ("r", "all"):
         pr.set(r2)
@@ -203,15 +209,18 @@ def h_live(ctx, where, reuse):
     if which in ("lam", "all"):
         plam.set(l2)
     ref2 = _build(ctx, where, r2 if which in ("r", "all") else r1, f2 if which in ("phi", "all") else f1, l2 if which in ("lam", "all") else l1, reuse)
-    ctx.check_eq(c.U_full, ref2.U_full, "U-follows-current-parameter-values")
-    ctx.check_eq(c.U, ref2.U, "U-block-follows-current-parameter-values")
+    ctx.check_eq(c.U_full, ref2.U_full, "U-follows-current-parameter-values" if rewrite is None else f"after-{rewrite}:U-follows-current-parameter-values")
+    ctx.check_eq(c.U, ref2.U, "U-block-follows-current-parameter-values" if rewrite is None else f"after-{rewrite}:U-block-follows-current-parameter-values")
     ctx.check_eq(live_copy.U_full, ref2.U_full, "plain-copy-is-live")
     ctx.check_eq(frozen.U_full, ref1.U_full, "frozen-copy-keeps-old-values")
     ctx.check(frozen.heralds == c.heralds and frozen.n_modes == c.n_modes, "frozen-copy-keeps-heralds")
 
 
 def live_cases(tier):
-    return [dict(where=w, reuse=r) for w in ("plain", "group", "heralded", "nested", "param-then-heralded", "param-sub-across-ancilla") for r in (False, True) if not (w == "nested" and r)]
+    base = [dict(where=w, reuse=r) for w in ("plain", "group", "heralded", "nested", "param-then-heralded", "param-sub-across-ancilla") for r in (False, True) if not (w == "nested" and r)]
+    rew = [dict(where=w, reuse=r, rewrite=rw) for rw in ("unpack_groups", "compress_mode_swaps", "remove_non_adjacent_bs")
+           for (w, r) in (("plain", True), ("group", False), ("heralded", True), ("param-sub-across-ancilla", True), ("param-sub-across-ancilla", False))]
+    return base + rew
 
 
 def h_invalid_value(ctx, which, side):
@@ -270,7 +279,7 @@ def harnesses(tier):
     return [
         ("bounds-step", h_bounds_step, bounds_cases(tier)),
         ("live", h_live, live_cases(tier)),
-        ("live.raw", h_live, [c for c in live_cases(tier) if c["where"] in ("plain", "group")], dict(raw=True)),
+        ("live.raw", h_live, [c for c in live_cases(tier) if c["where"] in ("plain", "group") and not c.get("rewrite")], dict(raw=True)),
         ("zero-loss-parameter", h_zero_loss_param, [dict(via=v) for v in ("bs", "ps", "loss")]),
         ("invalid", h_invalid_value, [dict(which=w, side=s) for w in ("bs", "loss", "bs-loss") for s in ("below", "above")]),
     ]
